@@ -178,9 +178,15 @@ def execute_floor(case, t):
         raise Violation("with no floor requested some entries were removed")
     mags = np.unique(np.abs(np.concatenate([p.ravel() for p in produced])))
     mags = mags[mags > 0]
-    boundary = float(mags[case["pick"] % max(1, (len(mags) + 1) // 2)])      # lower half: keeps the filtered matrix invertible more often
+    half = max(1, (len(mags) + 1) // 2)
+    # floors that coincide exactly with the magnitude of an entry the optimiser produced (lower half of the magnitudes: keeps the
+    # filtered matrix invertible more often); several per case, neighbours in magnitude included - entries that are equal up to
+    # the solver's tolerance (repeats of one Toeplitz parameter) sit right next to each other there
+    picks = sorted({(case["pick"] + d) % half for d in (0, 1, 2, half // 2, half - 1)})
+    boundaries = [float(mags[i]) for i in picks]
+    boundary = boundaries[0]
     total_removed = 0
-    for e in (eps, boundary):
+    for e in [eps] + boundaries:
         ev = e
         if case["eps_form"] == "np.float64":
             ev = np.float64(e)
